@@ -196,5 +196,17 @@ def stepOp (b : SBag) : Op → Option SBag × String
     let removed := (List.range L).filter gone
     (some { b with rows := b.rows.map fun r => (r.1, kept.filterMap fun j => r.2[j]?) },
      sitesStatus lead trail kept removed)
+  | .compress =>
+    -- identical sites are merged: the distinct columns, each once, with its number of occurrences; the
+    -- documentation leaves their order open, the reference takes increasing byte-wise lexicographic order
+    -- (`patternTable`: strictly increasing, weights = multiplicities — `C13.patternTable_spec`).
+    -- An alignment without sequences has no site to merge: the implementation then reports the length 0
+    -- instead of −1 (`C01.compress_empty_not_rect`), the reference does not specify that state.
+    if !b.isAlign then (some b, "na") else
+    if b.rows = [] then (none, "ok[_]") else
+    let cols := (List.range b.length.toNat).map fun j => b.rows.filterMap fun r => r.2[j]?
+    let tbl := patternTable cols
+    (some { b with rows := b.rows.zipIdx.map fun (r, i) => (r.1, tbl.filterMap fun p => p.1[i]?) },
+     "ok[" ++ plusList (tbl.map Prod.snd) ++ "]")
 
 end Gv.Spec
